@@ -255,65 +255,70 @@ func spikeShape(g *stream) concaveShape {
 	return sh
 }
 
+// genConcave draws one case of TestPropConcave and hands it to emit (nothing is emitted for a rejected draw).
+func genConcave(rt *rapid.T, emit func(c Case, group string)) {
+	o := drawO(rt)
+	g := newStream(rt)
+	fams := []string{"comb", "comb", "notch", "notch", "spikes"}
+	if f := os.Getenv("VERIF_C16_FAMILY"); f != "" { // development aid: one family only
+		fams = []string{f}
+	}
+	family := rapid.SampledFrom(fams).Draw(rt, "family")
+	var sh concaveShape
+	switch family {
+	case "comb":
+		sh = combShape(g)
+	case "notch":
+		sh = notchShape(g)
+	default:
+		sh = spikeShape(g)
+	}
+	stats.Class("concave family:" + family)
+	sym := rapid.IntRange(0, 7).Draw(rt, "symmetry")
+	tr := drawTransform(g, false)
+	if tr.name != "identity" {
+		stats.Class("transformed")
+	}
+	mapPt := func(p orb.Point) orb.Point { return tr.pt(dihedral(sym, p)) }
+	mp := make(orb.MultiPolygon, len(sh.polys))
+	for i, p := range sh.polys {
+		mp[i] = make(orb.Polygon, len(p))
+		for j, r := range p {
+			pts := make([]orb.Point, len(r))
+			for k, v := range r {
+				pts[k] = mapPt(v)
+			}
+			want := o
+			if j > 0 {
+				want = -o
+			}
+			mp[i][j] = wind(pts, want, rapid.IntRange(0, len(pts)-1).Draw(rt, "rot"))
+		}
+	}
+	c0, c1 := mapPt(sh.box.Min), mapPt(sh.box.Max)
+	b := orb.Bound{Min: orb.Point{math.Min(c0[0], c1[0]), math.Min(c0[1], c1[1])}, Max: orb.Point{math.Max(c0[0], c1[0]), math.Max(c0[1], c1[1])}}
+	aims := make([]orb.Point, len(sh.aims))
+	for i, a := range sh.aims {
+		aims[i] = mapPt(a)
+	}
+	c := Case{Kind: sh.kind, Box: gen.FromBound(b), O: o}
+	if sh.kind == "polygon" {
+		c.Geom = gen.G{V: mp[0]}
+	} else {
+		c.Geom = gen.G{V: mp}
+	}
+	c.Q = drawQueries(g, b, 10, aims)
+	holes := 0
+	for _, p := range mp {
+		holes += len(p) - 1
+	}
+	stats.Class(fmt.Sprintf("concave holes:%d", min(holes, 4)))
+	emit(c, "concave-"+family)
+}
+
 func TestPropConcave(t *testing.T) {
 	assumptions()
-	stats.Check(t, 100000, 2000000, func(rt *rapid.T) {
-		o := drawO(rt)
-		g := newStream(rt)
-		fams := []string{"comb", "comb", "notch", "notch", "spikes"}
-		if f := os.Getenv("VERIF_C16_FAMILY"); f != "" { // development aid: one family only
-			fams = []string{f}
-		}
-		family := rapid.SampledFrom(fams).Draw(rt, "family")
-		var sh concaveShape
-		switch family {
-		case "comb":
-			sh = combShape(g)
-		case "notch":
-			sh = notchShape(g)
-		default:
-			sh = spikeShape(g)
-		}
-		stats.Class("concave family:" + family)
-		sym := rapid.IntRange(0, 7).Draw(rt, "symmetry")
-		tr := drawTransform(g, false)
-		if tr.name != "identity" {
-			stats.Class("transformed")
-		}
-		mapPt := func(p orb.Point) orb.Point { return tr.pt(dihedral(sym, p)) }
-		mp := make(orb.MultiPolygon, len(sh.polys))
-		for i, p := range sh.polys {
-			mp[i] = make(orb.Polygon, len(p))
-			for j, r := range p {
-				pts := make([]orb.Point, len(r))
-				for k, v := range r {
-					pts[k] = mapPt(v)
-				}
-				want := o
-				if j > 0 {
-					want = -o
-				}
-				mp[i][j] = wind(pts, want, rapid.IntRange(0, len(pts)-1).Draw(rt, "rot"))
-			}
-		}
-		c0, c1 := mapPt(sh.box.Min), mapPt(sh.box.Max)
-		b := orb.Bound{Min: orb.Point{math.Min(c0[0], c1[0]), math.Min(c0[1], c1[1])}, Max: orb.Point{math.Max(c0[0], c1[0]), math.Max(c0[1], c1[1])}}
-		aims := make([]orb.Point, len(sh.aims))
-		for i, a := range sh.aims {
-			aims[i] = mapPt(a)
-		}
-		c := Case{Kind: sh.kind, Box: gen.FromBound(b), O: o}
-		if sh.kind == "polygon" {
-			c.Geom = gen.G{V: mp[0]}
-		} else {
-			c.Geom = gen.G{V: mp}
-		}
-		c.Q = drawQueries(g, b, 10, aims)
-		holes := 0
-		for _, p := range mp {
-			holes += len(p) - 1
-		}
-		stats.Class(fmt.Sprintf("concave holes:%d", min(holes, 4)))
-		runCase(rt, "TestPropConcave", c, "concave-"+family)
+	stats.Check(t, 80000, 1500000, func(rt *rapid.T) {
+		genConcave(rt, func(c Case, group string) { runCase(rt, "TestPropConcave", c, group) })
 	})
 }
